@@ -115,6 +115,14 @@ class _STIXBase(collections.abc.Mapping):
         for m in self.get('granular_markings', []):
             validate(self, m.get('selectors'))
 
+        if 'created' in self._properties and 'modified' in self._properties:
+            created = self.get('created')
+            modified = self.get('modified')
+            if created and modified and modified < created:
+                raise ValueError(
+                    "'modified' must be later than or equal to 'created'",
+                )
+
     def __init__(self, allow_custom=False, interoperability=False, **kwargs):
         cls = self.__class__
 
